@@ -15,17 +15,18 @@ zero-delta propagation in the Go code, which is the identity whenever
 `request = lendRule childRequest` and all aggregates are >= 0 along the path
 (theorem `propReq_zero_id` / `propUsed_zero_id` in Props/C01.lean).
 
-`Pod.req` / `Pod.np` are GHOST fields: the request / non-preemptible flag of the pod object that was
-delivered last (Go's PodCache keeps the first object and a stale `resource`).  They are never
-observed and never read by an operation; they exist so that the property can be stated.
+`Pod.req` / `Pod.np` are the request / non-preemptible flag of the pod object the PodCache holds (PodInfo.pod).
+Since repair 7265fb2 OnPodUpdate keeps that object current (`refreshPodIfPresent`, = `setGhost`: same quota, not
+ignored, pod cached) and OnPodDelete gives back the CACHED object's amounts (`getCachedPod`, = `cachedObj`), i.e.
+what the group accounted; before the repair they were ghost fields (Go kept the first object).  They are not observed.
 -/
 namespace KoordVerif.C01
 
 structure Pod where
   id       : Nat
   assigned : Bool
-  req      : Int   -- ghost
-  np       : Bool  -- ghost
+  req      : Int   -- PodRequests(PodInfo.pod)
+  np       : Bool  -- IsPodNonPreemptible(PodInfo.pod)
 deriving Repr, DecidableEq
 
 /-- QuotaInfo + QuotaCalculateInfo (one dimension). `max = none`: key absent from CalculateInfo.Max. -/
@@ -320,7 +321,7 @@ def setAssigned (s : State) (n id : Nat) (flag : Bool) : State :=
   | none => s
   | some q => set s { q with pods := q.pods.map (fun p => if p.id = id then { p with assigned := flag } else p) }
 
-/-- ghost bookkeeping only: remember the object delivered last -/
+/-- QuotaInfo.refreshPodIfPresent: the cached object becomes the one just delivered -/
 def setGhost (s : State) (n : Nat) (o : PodObj) : State :=
   match get? s n with
   | none => s
@@ -396,9 +397,23 @@ def onPodUpdate (s : State) (newQ oldQ : Nat) (np op : PodObj) : State :=
     | none => s1
     | some q => if !podExists q np.id && !np.ign then addPodTo s1 newQ np else s1
 
-/-- OnPodDelete -/
+/-- PodCache lookup -/
+def findPod : List Pod → Nat → Option Pod
+  | [], _ => none
+  | p :: t, i => if p.id = i then some p else findPod t i
+
+/-- QuotaInfo.getCachedPod: the delivered object with the amounts of the object cached in group `n` (if any) -/
+def cachedObj (s : State) (n : Nat) (p : PodObj) : PodObj :=
+  match get? s n with
+  | none => p
+  | some q =>
+    match findPod q.pods p.id with
+    | none => p
+    | some e => { p with req := e.req, np := e.np }
+
+/-- OnPodDelete: gives back what the group accounted for the pod (the cached object), not the delivered object -/
 def onPodDelete (s : State) (n : Nat) (p : PodObj) : State :=
-  if existsIn s n p.id then removePodFrom s n p false else s
+  if existsIn s n p.id then removePodFrom s n (cachedObj s n p) false else s
 
 /-- ReservePod -/
 def reservePod (s : State) (n : Nat) (p : PodObj) : State :=
